@@ -12,7 +12,7 @@ import itertools
 
 import numpy as np
 
-from sim import alpha
+from sim import alpha, seams
 from sim import refmodel as R
 from sim import specs
 from sim.alpha import _digest
@@ -324,6 +324,20 @@ def common_checks(world, pre, post, r, res, cell, out):
             out.append(Violation(["C15"], "user-arrays", "user-array-mutated", cell, f"array given for {label}"))
     # reseat digests so that one mutation is reported once
     world.user_arrays = [(l, a, _digest(a)) for (l, a, d) in world.user_arrays]
+    # key hygiene at the sampler seam: every draw of this step used a key that Config.random_key
+    # handed out, that never reached the sampler before, and no two draws share a key
+    if res.draws:
+        seen = world.__dict__.setdefault("_seen_sampler_keys", set())
+        handed = set(seams.keys_log())
+        ks = [d["key"] for d in res.draws]
+        dup = len(ks) != len(set(ks)) or any(k in seen for k in ks)
+        foreign = any(k not in handed for k in ks)
+        for k in ks:
+            seen.add(k)
+        if dup:
+            out.append(Violation(["C14", "C04"], "key-hygiene", "key-reused", cell, f"{len(ks)} draws, {len(set(ks))} distinct keys in this step (or a key of an earlier step)"))
+        if foreign:
+            out.append(Violation(["C14"], "key-hygiene", "foreign-key", cell, "a key reached the sampler that Config.random_key did not hand out"))
     # other clients untouched (W13 f)
     me = r.get("client")
     if me is not None:
